@@ -10,7 +10,8 @@ package ledger
 // [fv,lv] inside [1,R+1] with lv-fv <= MaxTxnLife = 4); they differ in nothing else, so the
 // txid is a function of (sender, lease, window). R = 6 (quick) / 8 (thorough).
 //
-// A *scenario* picks 3 (one: 4) transactions of U that may be committed. Operations:
+// A *scenario* picks 3 (one: 4; thorough adds all 28 pairs of same-lease payments over 8
+// windows) transactions of U that may be committed. Operations:
 //   blk(S)   for every S subset of the scenario, |S| <= 2 (incl. the empty block): build block
 //            Latest+1 with the real BlockEvaluator (TestTransactionGroup + TransactionGroup),
 //            re-validate it with Ledger.Validate, AddValidatedBlock; enabled only if the
@@ -525,6 +526,23 @@ func c11Scenarios() []c11Scenario {
 	}
 }
 
+// c11PairScenarios (thorough): every unordered pair of same-(sender,lease) payments over a
+// fixed set of 8 windows: all relative positions of two lease holders (disjoint, touching,
+// nested, overlapping, equal start, equal end).
+func c11PairScenarios() []c11Scenario {
+	w := [][2]int{{1, 1}, {1, 3}, {1, 5}, {2, 4}, {3, 7}, {4, 8}, {5, 9}, {6, 6}}
+	var out []c11Scenario
+	for i := 0; i < len(w); i++ {
+		for j := i + 1; j < len(w); j++ {
+			out = append(out, c11Scenario{
+				name: fmt.Sprintf("pair[%d,%d]+[%d,%d]", w[i][0], w[i][1], w[j][0], w[j][1]),
+				txs:  [][4]int{{0, 1, w[i][0], w[i][1]}, {0, 1, w[j][0], w[j][1]}},
+			})
+		}
+	}
+	return out
+}
+
 type c11Config struct {
 	scen int    // index into c11Scenarios
 	lb   uint64 // MaxAcctLookback
@@ -539,14 +557,18 @@ func c11Configs() []c11Config {
 		}
 	}
 	var cfgs []c11Config
-	for sc := range c11Scenarios() {
+	nfixed := len(c11Scenarios())
+	for sc := 0; sc < nfixed; sc++ {
 		cfgs = append(cfgs, c11Config{sc, 0, true})
 	}
-	for sc := range c11Scenarios() {
+	for sc := 0; sc < nfixed; sc++ {
 		cfgs = append(cfgs, c11Config{sc, 2, true})
 	}
 	for _, sc := range []int{0, 1, 2} {
 		cfgs = append(cfgs, c11Config{sc, 0, false}, c11Config{sc, 1, false})
+	}
+	for i := range c11PairScenarios() {
+		cfgs = append(cfgs, c11Config{nfixed + i, 0, true})
 	}
 	return cfgs
 }
@@ -559,7 +581,7 @@ func TestVerif_C11(t *testing.T) {
 	proto := c11RegisterProto()
 	maxRound := basics.Round(ve.Pick(6, 8))
 	u := c11Universe(maxRound + 1)
-	all := c11Scenarios()
+	all := append(c11Scenarios(), c11PairScenarios()...)
 	var cov ve.Coverage
 	cov.Exhaustive = true
 	nrun := 0
